@@ -54,10 +54,44 @@ Theorem dyn_range_in_bounds :
 Proof. exact dyn_range_in_bounds_lemma. Qed.
 Print Assumptions dyn_range_in_bounds.
 
+(* READING a name-based Range (BaseRange._get: cached value, else the low bound, clamped): the result lies within the
+   INCLUSIVE bounds of that moment whenever low <= high ... *)
+Theorem dyn_readable_within_inclusive_bounds :
+  forall c s n lo hi w, dyn_readable c s n lo hi = Some w ->
+    exists l h z, read c s lo = Some (PInt l) /\ read c s hi = Some (PInt h) /\ w = PInt z /\ (l <= h -> l <= z <= h).
+Proof. exact dyn_readable_inclusive_lemma. Qed.
+Print Assumptions dyn_readable_within_inclusive_bounds.
+
+(* ... but not within the declared EXCLUSIVE range (F23): with exclude_low, after the low bound moved to 5 past the stored
+   3, reading yields 5 — the excluded endpoint, a value whose assignment is rejected *)
+Theorem dyn_readable_exclusive_refuted :
+  exists c s n lo hi mask z l h,
+    dyn_readable c s n lo hi = Some (PInt z) /\ read c s lo = Some (PInt l) /\ read c s hi = Some (PInt h) /\
+    dyn_nonempty l h mask = true /\ int_range_spec z (Some l) (Some h) mask = false /\
+    validate_s E0 c s (DRangeDyn lo hi mask) (PInt z) = Reject.
+Proof.
+  exists [(0, (DRangeDyn 2 3 1, PInt 0)); (2, (DInt, PInt 0)); (3, (DInt, PInt 10))],
+         (fst (setattr E0 [(0, (DRangeDyn 2 3 1, PInt 0)); (2, (DInt, PInt 0)); (3, (DInt, PInt 10))]
+                 (fst (setattr E0 [(0, (DRangeDyn 2 3 1, PInt 0)); (2, (DInt, PInt 0)); (3, (DInt, PInt 10))] [] 0 (PInt 3))) 2 (PInt 5))),
+         0, 2, 3, 1, 5, 5, 10.
+  vm_compute. repeat split.
+Qed.
+Print Assumptions dyn_readable_exclusive_refuted.
+
 Theorem validate_s_is_validate_elsewhere :
   forall E c s d v, (forall lo hi m, d <> DRangeDyn lo hi m) -> validate_s E c s d v = validate E d v.
 Proof. exact validate_s_static. Qed.
 Print Assumptions validate_s_is_validate_elsewhere.
+
+(* Dict(<key trait>, <value trait>) as a member description: accepted iff a dict whose keys and values are accepted one
+   by one by the key / value trait; the stored dict is built from the converted items (equal converted keys collapse) *)
+Theorem dict_items_validated :
+  forall E kd vd v w,
+    validate E (DDict kd vd) v = Accept w <->
+    exists kvs l, v = PDict kvs /\ w = PDict (dict_build l) /\
+      Forall2 (fun kx ky => validate E kd (fst kx) = Accept (fst ky) /\ validate E vd (snd kx) = Accept (snd ky)) kvs l.
+Proof. exact dict_items_lemma. Qed.
+Print Assumptions dict_items_validated.
 
 (* setattr_validate_property (ctraits.c:2767): Property(<trait>) validates with the trait's Python validate, then the
    setter stores the VALIDATED value; validate_sound, validate_documented_conversion, reject_no_effect,
